@@ -55,6 +55,8 @@ class Query:
     order_by: list[Order] = dataclasses.field(default_factory=list)
     limit: int | None = None
     offset: int | None = None
+    # whether a `summarize` is part of this query (the GROUP BY list may be empty)
+    aggregated: bool = False
 
 
 class SqlImpl(TableImpl):
@@ -436,7 +438,7 @@ class SqlImpl(TableImpl):
             query.select += nd.uuids
 
         elif isinstance(nd, verbs.Filter):
-            if query.group_by:
+            if query.group_by or query.aggregated:
                 query.having.extend(nd.predicates)
             else:
                 query.where.extend(nd.predicates)
@@ -453,6 +455,7 @@ class SqlImpl(TableImpl):
             query.select = [col._uuid for col in query.partition_by] + nd.uuids
             query.partition_by = []
             query.order_by.clear()
+            query.aggregated = True
 
         elif isinstance(nd, verbs.SliceHead):
             if query.limit is None:
